@@ -363,7 +363,8 @@ class List(list, base.Symbolic, pg_typing.CustomTyping):
     finally:
       # NOTE: also when an update is rejected midway, the updates applied so
       # far shall leave the list consistent.
-      self._sync_children()
+      if updates:
+        self._sync_children()
     # Reverse the updates so the update is from the smallest number to
     # the largest.
     updates.reverse()
